@@ -238,7 +238,8 @@ def apply(c, op, optag, opval, target, n, span, extra):
 def make(kind, n, strict):
     import fsic
     from fsic.core import VectorContainer
-    span = list(range(2000, 2000 + n))
+    # years, or a window around zero (0 is a label like any other, and not at either end of the span)
+    span = list(range(2000, 2000 + n)) if (n + len(kind)) % 3 else list(range(-2, n - 2))
     if kind == 'container':
         c = monitored(VectorContainer)(span, strict=strict)
         dtypes = {}
@@ -363,6 +364,18 @@ def step(ctx, c, twin, dtypes, hist, kind, n, span, op, optag, opval_factory, ta
     ctx.seen('op_outcomes', f'{op}:{outcome}')
     case = {'kind': kind, 'n': n, 'history': hist}
     after = snap(c)
+    if op == 'lslice' and target in before['index'] and isinstance(operand, (list, tuple, range, np.ndarray)) and np.ndim(operand) == 1 and len(operand) >= 2:
+        # a label slice addresses the periods from its first to its last label inclusive (open ends: the span's ends) - falsy labels
+        # such as 0 included; a sequence of another length cannot fit it
+        a_, b_, st_ = extra
+        if (a_ is None or a_ in span) and (b_ is None or b_ in span):
+            pa, pb = (0 if a_ is None else span.index(a_)), (n - 1 if b_ is None else span.index(b_))
+            addressed = list(range(pa, pb + 1, st_ or 1)) if pa <= pb else []
+            if len(addressed) >= 2 and len(operand) != len(addressed):
+                ctx.count('misfit_label_slice_assignments')
+                if outcome == 'ok' or not series_same(before, after):
+                    ctx.violation('failed-assignment-mutates', f'{kind}: {desc}: {len(operand)} values for the {len(addressed)} periods {addressed} the label slice addresses -> {outcome}; series changed: {not series_same(before, after)}', case)
+                    return False
     if op in ('item', 'replace', 'label', 'lslice') and target not in before['index']:
         # an unknown name - including the name of a non-variable attribute, property or class attribute - must be refused by the
         # variable-assignment paths, not turned into something else
